@@ -60,6 +60,10 @@ def _wild(draw, shard, nshards):
         sig = draw(st.one_of(st.tuples(st.integers(1, 33), st.sampled_from([1, 2, 4, 8, 16, 32])),
                              st.sampled_from([(8, 8), (4, 4), (16, 16), (2, 2), (16, 8), (17, 8), (1, 8), (2, 8)])))
         edits.append([kind, draw(st.integers(0, 10 ** 6)), draw(st.integers(-3, 40)), sig[0], sig[1]])
+    rng = cfg.get("ts_range")
+    if rng and not rng[0] <= 8 <= rng[1] and draw(st.booleans()):
+        # the library's default signature (8 eighths) lies outside this tokeniser's range: write it literally on the first bar
+        edits.append(["ts", 0, 1, draw(st.sampled_from([8, 4, 16])), draw(st.sampled_from([8, 4, 16]))])
     return {"kind": "wild", "cfg": cfg, "piece": piece, "edits": edits}
 
 
